@@ -241,3 +241,62 @@ func unitPropagate(hyps []*Term) []*Term {
 	}
 	return cur
 }
+
+// arithLemmas adds instances of valid bit-vector facts about signed division/remainder by positive
+// constants, which bit-blasting solvers rarely find by themselves:
+//   a == (a/c)*c + a%c,  -c < a%c < c,  a>=0 => a%c>=0,  a<=0 => a%c<=0,  (x*c)/c == x when |x| < 2^62/c.
+// Each instance schema is re-checked in isolation by the thorough tier (lemma:arith-*).
+func arithLemmas(hyps []*Term, goal *Term) []*Term {
+	seen := map[int]bool{}
+	var out []*Term
+	done := map[string]bool{}
+	var visit func(t *Term)
+	visit = func(t *Term) {
+		if seen[t.id] {
+			return
+		}
+		seen[t.id] = true
+		for _, a := range t.Args {
+			visit(a)
+		}
+		if (t.Op == "bvsdiv" || t.Op == "bvsrem") && t.Args[1].IsConst() && t.Sort.W == 64 {
+			c := t.Args[1]
+			cv := int64(c.Val)
+			if cv <= 1 {
+				return
+			}
+			a := t.Args[0]
+			key := fmt.Sprintf("%d/%d", a.id, cv)
+			if done[key] {
+				return
+			}
+			done[key] = true
+			q := BinBV("bvsdiv", a, c)
+			r := BinBV("bvsrem", a, c)
+			zero := Const(64, 0)
+			out = append(out, Eq(a, Add(BinBV("bvmul", q, c), r)))
+			out = append(out, And(CmpBV("bvslt", BVNeg(c), r), CmpBV("bvslt", r, c)))
+			out = append(out, Implies(CmpBV("bvsle", zero, a), CmpBV("bvsle", zero, r)))
+			out = append(out, Implies(CmpBV("bvsle", a, zero), CmpBV("bvsle", r, zero)))
+			// (x*c + K)/c == x + K/c  when c | K and nothing overflows
+			if a.Op == "bvadd" && a.Args[1].IsConst() && a.Args[0].Op == "bvmul" && a.Args[0].Args[1] == c {
+				kv := int64(a.Args[1].Val)
+				if kv%cv == 0 {
+					x := a.Args[0].Args[0]
+					lim := Const(64, uint64((int64(1)<<61)/cv))
+					out = append(out, Implies(And(CmpBV("bvslt", BVNeg(lim), x), CmpBV("bvslt", x, lim)), Eq(q, Add(x, Const(64, uint64(kv/cv))))))
+				}
+			}
+			if a.Op == "bvmul" && a.Args[1] == c {
+				x := a.Args[0]
+				lim := Const(64, uint64((int64(1)<<62)/cv))
+				out = append(out, Implies(And(CmpBV("bvslt", BVNeg(lim), x), CmpBV("bvslt", x, lim)), Eq(q, x)))
+			}
+		}
+	}
+	for _, h := range hyps {
+		visit(h)
+	}
+	visit(goal)
+	return out
+}
